@@ -40,7 +40,7 @@ func CheckC13(run *evid.Run) {
 			}
 			return sig, det("kind", kind, "scenario", last["scenario"])
 		}}
-	nStress := pick(run.Tier, 320, 12000)
+	nStress := pick(run.Tier, 640, 16000)
 	nSweepSeeds := pick(run.Tier, 1, 12)
 	opts.Env = []string{fmt.Sprintf("VERIF_C13_STRESS=%d", nStress), fmt.Sprintf("VERIF_C13_SWEEPS=%d", nSweepSeeds)}
 	opts.Key = "C13"
